@@ -8,26 +8,28 @@ import (
 
 // c20SX is the symbolic executor (see c20_val.go).
 type c20SX struct {
-	cx     *c20Ctx
-	info   *types.Info
-	root   *FuncInfo
-	opaque func(fn *types.Func) string // same-package function modelled as an event of this kind instead of being inlined ("" = inline)
-	status *int64                      // concrete StatusCode of the response returned by Client.Do (getFromAPI world)
-	stack  []*types.Func
-	frames []c20Frame     // one per function or closure being executed (innermost last)
-	lits   []*ast.FuncLit // function literals being executed (recursion guard)
-	tick   int
-	birth  map[types.Object]int // when a variable was last declared or bound as a parameter (see changed)
-	nextID int
-	budget int
-	sep    string
-	preset map[int]c20V // root parameters bound to given values instead of symbolic inputs (finite-domain runs)
+	cx      *c20Ctx
+	info    *types.Info
+	root    *FuncInfo
+	opaque  func(fn *types.Func) string // same-package function modelled as an event of this kind instead of being inlined ("" = inline)
+	status  *int64                      // concrete StatusCode of the response returned by Client.Do (getFromAPI world)
+	stack   []*types.Func
+	frames  []c20Frame     // one per function or closure being executed (innermost last)
+	lits    []*ast.FuncLit // function literals being executed (recursion guard)
+	tick    int
+	zeroing []types.Type         // struct types being zero-filled (depth guard)
+	birth   map[types.Object]int // when a variable was last declared or bound as a parameter (see changed)
+	nextID  int
+	budget  int
+	sep     string
+	preset  map[int]c20V // root parameters bound to given values instead of symbolic inputs (finite-domain runs)
 }
 
 // c20Frame describes the function or closure whose body is being executed.
 type c20Frame struct {
-	sig    *types.Signature
-	lo, hi token.Pos
+	sig     *types.Signature
+	lo, hi  token.Pos
+	results []types.Object // the named result variables, if the function names them
 }
 
 func (x *c20SX) frame() c20Frame { return x.frames[len(x.frames)-1] }
@@ -63,6 +65,7 @@ func (x *c20SX) run() []*c20St {
 	x.bindRoot(st)
 	x.stack = []*types.Func{x.root.Obj}
 	x.frames = []c20Frame{{sig: c20Sig(x.root.Obj), lo: x.root.Decl.Pos(), hi: x.root.Decl.End()}}
+	x.enter(st)
 	outs := x.block(x.root.Decl.Body.List, []*c20St{st})
 	var final []*c20St
 	for _, o := range outs {
@@ -131,13 +134,6 @@ func (x *c20SX) callInline(fi *FuncInfo, call *ast.CallExpr, recv *c20V, args []
 		return []c20EV{{st, c20Unknown("call chain too deep at %s", fi.Name())}}
 	}
 	sig := c20Sig(fi.Obj)
-	if fi.Decl.Type.Results != nil {
-		for _, f := range fi.Decl.Type.Results.List {
-			if len(f.Names) > 0 {
-				return []c20EV{{st.abort(call, "%s has named results (not among the understood shapes)", fi.Name()), c20V{}}}
-			}
-		}
-	}
 	if sig.Recv() != nil && recv != nil {
 		st.env[sig.Recv()] = *recv
 	}
@@ -148,10 +144,10 @@ func (x *c20SX) callInline(fi *FuncInfo, call *ast.CallExpr, recv *c20V, args []
 		case sig.Variadic() && i == np-1:
 			if call.Ellipsis.IsValid() && i < len(args) {
 				st.env[p] = args[i]
-			} else if len(args) == np-1 {
-				st.env[p] = c20V{k: c20kNil}
+			} else if len(args) >= np-1 {
+				st.env[p] = x.variadicArg(p.Type(), args[np-1:])
 			} else {
-				st.env[p] = c20Unknown("variadic arguments of %s given one by one", fi.Name())
+				st.env[p] = c20Unknown("missing arguments of %s", fi.Name())
 			}
 		case i < len(args):
 			st.env[p] = args[i]
@@ -167,6 +163,7 @@ func (x *c20SX) callInline(fi *FuncInfo, call *ast.CallExpr, recv *c20V, args []
 	}
 	x.stack = append(x.stack, fi.Obj)
 	x.frames = append(x.frames, c20Frame{sig: sig, lo: fi.Decl.Pos(), hi: fi.Decl.End()})
+	x.enter(st)
 	outs := x.block(fi.Decl.Body.List, []*c20St{st})
 	x.stack = x.stack[:len(x.stack)-1]
 	x.frames = x.frames[:len(x.frames)-1]
@@ -190,7 +187,13 @@ func (x *c20SX) assign(lhs ast.Expr, v c20V, st *c20St) {
 			}
 		}
 	}
-	st.abort(lhs, "assignment to `%s` (only local variables are understood as assignment targets)", src(x.cx.r.P.Fset, lhs))
+	if ix, ok := lhs.(*ast.IndexExpr); ok && x.storeIndex(ix, v, st) {
+		return
+	}
+	if sel, ok := lhs.(*ast.SelectorExpr); ok && x.storeField(sel, v, st) {
+		return
+	}
+	st.abort(lhs, "assignment to `%s` (only local variables and elements of unaliased local string lists are understood as assignment targets)", src(x.cx.r.P.Fset, lhs))
 }
 
 // zero value of a declared variable.
@@ -208,10 +211,14 @@ func (x *c20SX) zero(t types.Type) c20V {
 	case *types.Slice:
 		if b, ok := u.Elem().Underlying().(*types.Basic); ok {
 			if b.Info()&types.IsString != 0 {
-				return c20V{k: c20kList, typ: t}
+				return c20V{k: c20kList, typ: t, id: x.newID()}
 			}
 			if b.Kind() == types.Uint8 {
 				return c20V{k: c20kBytes, typ: t}
+			}
+			if b.Info()&types.IsInteger != 0 {
+				// a list of numbers: its elements are the (converted) ids put into it
+				return c20V{k: c20kList, name: "nums", typ: t, id: x.newID()}
 			}
 		}
 		return c20V{k: c20kNil}
@@ -223,7 +230,16 @@ func (x *c20SX) zero(t types.Type) c20V {
 		}
 		if nt, ok := t.(*types.Named); ok {
 			// `var o osm.OSM`: a fresh empty document
-			return c20V{k: c20kObj, tag: "doc", id: x.newID(), name: nt.Obj().Name(), b: true, typ: t, fields: map[string]c20V{}}
+			z := c20V{k: c20kObj, tag: "doc", id: x.newID(), name: nt.Obj().Name(), b: true, typ: t, fields: map[string]c20V{}}
+			if nt.Obj().Pkg() == x.cx.pk.Types && len(x.zeroing) < 4 {
+				// a struct of the package: its fields hold their zero values
+				x.zeroing = append(x.zeroing, t)
+				for i := 0; i < u.NumFields(); i++ {
+					z.fields[u.Field(i).Name()] = x.zero(u.Field(i).Type())
+				}
+				x.zeroing = x.zeroing[:len(x.zeroing)-1]
+			}
+			return z
 		}
 	}
 	return c20Unknown("zero value of %s", t)
